@@ -372,6 +372,9 @@ func (r *Report) writeEvidence(violations int) {
 	if strings.HasPrefix(r.Prop, "X") { // checks beyond the listed properties keep their evidence apart
 		evDir = "evidence-extra"
 	}
+	if repo := os.Getenv("VERIF_REPO"); repo != "" && repo != "/repo" {
+		evDir = filepath.Join(".work", "evidence-mutation") // a mutation experiment: not evidence about /repo
+	}
 	os.MkdirAll(filepath.Join(verifRoot, evDir), 0o755)
 	if err := os.WriteFile(filepath.Join(verifRoot, evDir, r.Prop+".json"), b, 0o644); err != nil {
 		infraFail("writing evidence: %v", err)
